@@ -1211,12 +1211,15 @@ class cls_mn(with_metaclass(metamn, object)):
             c.reset_class()
             c.mode = mode
 
-            if not c.add_pre_dis_info(pre_dis_info):
+            # each candidate works on its own copy: add_pre_dis_info may adapt
+            # the prefix information to the candidate (mandatory 66 prefix)
+            c_pre_dis_info = dict(pre_dis_info)
+            if not c.add_pre_dis_info(c_pre_dis_info):
                 continue
 
             todo = {}
             getok = True
-            fname_values = dict(pre_dis_info)
+            fname_values = dict(c_pre_dis_info)
             offset_b = offset * 8
 
             total_l = 0
